@@ -31,6 +31,7 @@ def _specs():
     add("Madgwick/IMU", "ga", lambda F, g, a, m, P: F.Madgwick(g, a, **P.get("madgwick", {})).Q)
     add("Madgwick/MARG", "gam", lambda F, g, a, m, P: F.Madgwick(g, a, m, **P.get("madgwick", {})).Q)
     add("Mahony/IMU", "ga", lambda F, g, a, m, P: F.Mahony(g, a, **P.get("mahony", {})).Q)
+    add("Mahony/MARG/kp,ki", "gam", lambda F, g, a, m, P: F.Mahony(g, a, m, kp=0.7, ki=0.2).Q)          # the gains under their older keyword names (docstring example)
     add("Mahony/MARG", "gam", lambda F, g, a, m, P: F.Mahony(g, a, m, **P.get("mahony", {})).Q)
     for fr in ("NED", "ENU"):
         add("EKF/IMU/" + fr, "ga", lambda F, g, a, m, P, fr=fr: F.EKF(g, a, frame=fr, **P.get("ekf", {})).Q)
@@ -73,6 +74,8 @@ def _specs():
     add("Tilt/acc", "a", lambda F, g, a, m, P: F.Tilt(a).Q)
     add("Tilt/acc+mag", "am", lambda F, g, a, m, P: F.Tilt(a, m).Q)
     add("Tilt/rotmat", "am", lambda F, g, a, m, P: F.Tilt(a, m, representation="rotmat").Q, "rotmat")
+    # the older spelling of the same request, still documented (module docstring and the estimate() example) and still read by the constructor
+    add("Tilt/as_angles", "am", lambda F, g, a, m, P: F.Tilt(a, m, as_angles=True).Q, "angles")
     add("Tilt/angles", "am", lambda F, g, a, m, P: F.Tilt(a, m, representation="angles").Q, "angles")
     add("SAAM", "am", lambda F, g, a, m, P: F.SAAM(a, m).Q)
     add("SAAM/rotmat", "am", lambda F, g, a, m, P: F.SAAM(a, m, representation="rotmat").A, "rotmat")
